@@ -329,6 +329,9 @@ class Env:
             if isinstance(v, Mask) and len(t.elts) == 1:
                 self.assign(t.elts[0], v, st)      # (w,) = np.where(cond)
                 return
+            if isinstance(v, sp.Basic) and isinstance(v, sp.core.function.AppliedUndef):
+                # result of an opaque callee unpacked into components
+                v = tuple(sp.Function("%s_%d" % (v.func.__name__, i))(*v.args) for i in range(len(t.elts)))
             if not isinstance(v, (tuple, list)) or len(v) != len(t.elts):
                 raise Unsupported("symx: cannot unpack %r into %s at %s" % (v, norm(t), self.where(st)))
             for e, x in zip(t.elts, v):
@@ -904,16 +907,114 @@ def _same(a, b):
 # comparison of terms
 # --------------------------------------------------------------------------
 
+class _Timeout(Exception):
+    pass
+
+
+def _with_timeout(fn, seconds):
+    import signal
+
+    def handler(signum, frame):
+        raise _Timeout()
+    try:
+        old = signal.signal(signal.SIGALRM, handler)
+    except ValueError:          # not in the main thread
+        return fn()
+    signal.setitimer(signal.ITIMER_REAL, seconds)
+    try:
+        return fn()
+    finally:
+        signal.setitimer(signal.ITIMER_REAL, 0)
+        signal.signal(signal.SIGALRM, old)
+
+
+def skeleton(e, table):
+    """canonical algebraic skeleton: every non-arithmetic application f(args) is replaced by one symbol per distinct
+    (f, canonical args); the remaining rational expression is put in cancelled form.  Two terms with equal skeletons are
+    equal as terms modulo field arithmetic (no function-specific identity is used)."""
+    e = sp.sympify(e)
+    if e.is_Atom:
+        return e
+    if isinstance(e, (sp.Add, sp.Mul)):
+        return e.func(*[skeleton(a, table) for a in e.args])
+    if isinstance(e, sp.Pow):
+        b, x = e.args
+        if x.is_Integer:
+            return sp.Pow(skeleton(b, table), x)
+        if x.is_Rational:
+            # sqrt and friends: canonical base, then one symbol per (base, exponent)
+            cb = _canon(skeleton(b, table))
+            return _sym(table, ("pow", cb, x))
+        return _sym(table, ("pow", _canon(skeleton(b, table)), _canon(skeleton(x, table))))
+    if isinstance(e, sp.Piecewise):
+        parts = []
+        for v, c in e.args:
+            parts.append((_canon(skeleton(v, table)), _canon_cond(c, table)))
+        return _sym(table, ("piecewise", tuple(parts)))
+    if isinstance(e, (sp.Rel, sp.And, sp.Or, sp.Not)) or e is sp.true or e is sp.false:
+        return _canon_cond(e, table)
+    args = tuple(_canon(skeleton(a, table)) for a in e.args)
+    return _sym(table, (e.func.__name__, args))
+
+
+def _canon(e):
+    try:
+        return sp.cancel(sp.together(sp.expand(e)))
+    except Exception:
+        return e
+
+
+def _canon_cond(c, table):
+    if c is sp.true or c is sp.false or c == True or c == False:   # noqa
+        return c
+    if isinstance(c, sp.Rel):
+        d = _canon(skeleton(c.lhs - c.rhs, table))
+        op = type(c).__name__
+        # orient: leading coefficient positive
+        try:
+            lead = sp.Poly(sp.numer(d)).LC() if sp.numer(d).free_symbols else sp.numer(d)
+            if lead.is_number and lead < 0:
+                d = -d
+                op = {"StrictGreaterThan": "StrictLessThan", "StrictLessThan": "StrictGreaterThan", "GreaterThan": "LessThan",
+                      "LessThan": "GreaterThan"}.get(op, op)
+        except Exception:
+            pass
+        return _sym(table, ("rel", op, d))
+    if isinstance(c, (sp.And, sp.Or)):
+        return _sym(table, (type(c).__name__, tuple(sorted((str(_canon_cond(a, table)) for a in c.args)))))
+    if isinstance(c, sp.Not):
+        return _sym(table, ("not", str(_canon_cond(c.args[0], table))))
+    return _sym(table, ("cond", str(c)))
+
+
+def _sym(table, key):
+    k = str(key)
+    if k not in table:
+        table[k] = sp.Symbol("K%d" % len(table))
+    return table[k]
+
+
 def equal(a, b, assumptions=None):
-    """structural equality after normalisation; returns (bool, normal form of the difference)"""
+    """equality of two terms after normalisation; returns (bool, a normal form of the difference).
+    1. structural; 2. algebraic skeleton (field arithmetic only, cheap); 3. sympy.simplify under a time limit
+    (function identities such as trigonometric addition formulas)."""
     a, b = sp.sympify(a), sp.sympify(b)
     if a == b:
         return True, sp.Integer(0)
-    d = a - b
-    for f in (lambda x: x, sp.expand, lambda x: sp.simplify(x), lambda x: sp.trigsimp(sp.expand_trig(x)), lambda x: sp.simplify(sp.expand(x, trig=True)),
-              lambda x: sp.simplify(sp.nsimplify(x, rational=True))):
+    table = {}
+    try:
+        sa, sb = skeleton(a, table), skeleton(b, table)
+        d = _canon(sa - sb)
+        if d == 0:
+            return True, sp.Integer(0)
+    except Exception:
+        pass
+    d2 = a - b
+    for f in (sp.expand, lambda x: sp.trigsimp(sp.expand_trig(x)), sp.simplify):
         try:
-            z = f(d)
+            z = _with_timeout(lambda: f(a - b), 3.0)
+        except _Timeout:
+            continue
         except Exception:
             continue
         if z == 0:
